@@ -1161,7 +1161,9 @@ class List(Generic, ValueSpecBase):
     # trigger permission error when `accessor_writable` is set to False.
     # As a result, we always try `_set_item_without_permission_check` if it's
     # available.
-    set_item = getattr(value, '_set_item_without_permission_check', None)
+    set_item = getattr(value, '_set_item_on_apply', None)
+    if set_item is None:
+      set_item = getattr(value, '_set_item_without_permission_check', None)
     if set_item is None:
       def _fn(i, v):
         value[i] = v
